@@ -10,6 +10,7 @@ pub mod c20;
 pub mod e2smoke;
 pub mod wvr;
 pub mod c05;
+pub mod c09;
 pub mod scripted;
 
 pub struct Spec {
@@ -57,6 +58,7 @@ pub fn spec(id: &str) -> Option<Spec> {
     "C03" => Some(c03::spec()),
     "C04" => Some(c04::spec()),
     "C05" => Some(c05::spec()),
+    "C09" => Some(c09::spec()),
     "C20" => Some(c20::spec()),
     "X01" => Some(e2smoke::spec()),
     _ => None,
@@ -70,6 +72,7 @@ pub fn run(id: &str, tier: &str, ctx: &mut Ctx) -> Check {
     "C03" => c03::run(tier, ctx),
     "C04" => c04::run(tier, ctx),
     "C05" => c05::run(tier, ctx),
+    "C09" => c09::run(tier, ctx),
     "C20" => c20::run(tier, ctx),
     "X01" => e2smoke::run(tier, ctx),
     _ => panic!("unknown property {id}"),
